@@ -94,7 +94,7 @@ struct Flags {
 	    eq_unequal_samelen = 0, eq_values_only = 0, merges = 0, merge_overlap = 0, clones = 0, clone_then_mut = 0, maxlen = 0,
 	    algebra = 0, tablesizes = 0, removed_present = 0, overwrites = 0, front_insert = 0, mid_insert = 0, convs = 0,
 	    conv_reordered = 0, conv_merged = 0, eq_default_moved = 0, setref = 0, setref_new = 0, setref_before = 0, setref_after = 0,
-	    setref_full = 0;
+	    setref_full = 0, degenerate = 0;
 	unsigned small_found = 0, small_nf = 0;
 	bool cloned[3] = {false, false, false};
 };
@@ -645,6 +645,8 @@ struct MapRun {
 			F.cloned[s] = false;
 			if (HASH && o.i(1) != 0)
 				F.tablesizes++;
+			if (HASH && o.i(1) != 0 && (o.i(1) < 0 ? -o.i(1) : o.i(1)) <= 3)
+				F.degenerate++;
 		}
 		else if (n == "clone") {
 			int t = slotOf(o.i(1));
@@ -866,6 +868,16 @@ struct MapRun {
 			if constexpr (ORD) {
 				delete slot[s];
 				slot[s] = 0;
+				if (o.i(3) == 2) { // empty initializer list
+					typedef typename Map<K, V>::KeyVal KVT;
+					std::initializer_list<KVT> il = {};
+					slot[s] = new C(il);
+					m.clear();
+					F.cloned[s] = false;
+					F.degenerate++;
+					check_all("init");
+					return;
+				}
 				if (o.i(3) & 1)
 					slot[s] = new C(Conv<K>::to(mk), Conv<V>::to(mv));
 				else {
@@ -1117,6 +1129,8 @@ struct SetRun {
 			F.cloned[s] = false;
 			if (o.i(1) != 0)
 				F.tablesizes++;
+			if (o.i(1) != 0 && (o.i(1) < 0 ? -o.i(1) : o.i(1)) <= 3)
+				F.degenerate++;
 		}
 		else if (n == "clone") {
 			int t = slotOf(o.i(1));
@@ -1255,6 +1269,8 @@ struct SetRun {
 			slot[s] = new C(arr);
 			model[s] = r;
 			F.cloned[s] = false;
+			if (cnt <= 2)
+				F.degenerate++;
 			if (slot[s]->a.length() != 258)
 				F.rehash++;
 		}
@@ -1455,6 +1471,7 @@ static void record(const std::string& part, const vf::Case& c, const Flags& F)
 	cl("eq_unequal_same_length", F.eq_unequal_samelen > 0);
 	if (part[0] != 's')
 		cl("eq_unequal_one_default_valued_key_moved", F.eq_default_moved > 0);
+	cl("degenerate_construction", F.degenerate > 0);
 	if (part[0] != 's') {
 		cl("set_value_ref_to_own_entry", F.setref > 0);
 		cl("set_value_ref.new_key", F.setref_new > 0);
@@ -1681,6 +1698,8 @@ rc::Gen<vf::Op> opgen(Cfg g)
 				many("fromarr");
 				if (o.a[3] > 60)
 					o.a[3] = 226;
+				if (*vf::irange<int>(0, 2) == 0)
+					o.a[3] = *vf::irange<int>(0, 2); // arrays of length 0, 1, 2 (with the duplicate flag: 1 -> {x,x})
 				o.a[4] = *vf::irange<int>(0, 1);
 			}
 			else if (w < 85) {
@@ -1777,7 +1796,7 @@ rc::Gen<vf::Op> opgen(Cfg g)
 				else if (o.name == "init") {
 					setkey();
 					setval();
-					o.a[3] = *vf::irange<int>(0, 1);
+					o.a[3] = *vf::irange<int>(0, 2);
 				}
 				else
 					o.a[1] = t;
@@ -1892,10 +1911,80 @@ void enumerate_setref(const vf::Args& a)
 	vf::stats().part("ordered.set_value_aliasing_own_entry.sizes1-13.every_position.every_form", n, true);
 }
 
+// every constructor the containers offer, with degenerate arguments (empty / 1 / 2-element arrays with and without duplicates, empty
+// initializer lists, tables of 1, 2, 3 buckets, default construction), the other operand empty or not, followed by each op of the mix
+// and a short tail that uses the container again.  HashMap(0) / Set(0) are not generated: zero buckets, out of bounds on the unchanged tree.
+void enumerate_degenerate(const vf::Args& a)
+{
+	uint64_t n = 0, idx = 0;
+	auto K = [](const char* name, long long slot, int key, long long x2 = 0, long long x3 = 0) { // op with a key argument
+		return vf::Op(name, {slot, key, x2, x3}, {skey(1, key), "v"});
+	};
+	auto S = [](const char* name, long long a0, long long a1 = 0, long long a2 = 0, long long a3 = 0, long long a4 = 0) { // op without a key
+		vf::Op o(name, {a0, a1, a2, a3, a4}, {"", "v"});
+		return o;
+	};
+	for (const char* kind : KINDS) {
+		std::string part = kind;
+		bool set = part[0] == 's', ord = !is_hash(part);
+		std::vector<vf::Op> ctors, follow;
+		if (set) {
+			for (int cnt = 0; cnt <= 3; cnt++)
+				for (int dup = 0; dup < 2; dup++)
+					if (cnt > 0 || dup == 0)
+						ctors.push_back(S("fromarr", 0, 1, 256, cnt, dup));
+			ctors.push_back(S("fromil", 0, 1, 256, 0));
+			ctors.push_back(S("fromil", 0, 1, 256, 1));
+			for (int t = 0; t <= 3; t++)
+				ctors.push_back(S("new", 0, t));
+			follow = {K("add", 0, 1), K("add", 0, 5), K("rm", 0, 1), K("rm", 0, 5), S("rmnth", 0, 0), K("has", 0, 1), S("clear", 0), S("clone", 0, 2), S("clone", 1, 0),
+			          S("dup", 0), S("copy", 0), S("merge", 0, 1), S("merge", 1, 0), S("merge", 0, 0), S("cont", 0, 1), S("cont", 1, 0), S("any", 0, 1), S("any", 1, 0),
+			          S("union", 0, 1, 2, 1), S("union", 1, 0, 2, 1), S("inter", 0, 1, 2, 1), S("inter", 1, 0, 2, 1), S("diff", 0, 1, 2, 1), S("diff", 1, 0, 2, 1),
+			          S("union", 0, 0, 2), S("inter", 0, 0, 2), S("diff", 0, 0, 2), S("array", 0), S("eq", 0, 1), S("eq", 1, 0), S("eq", 0, 0), S("rebuild", 0, 2, 1, 0),
+			          K("cloneswap", 0, 5, 2, 0), S("many", 0, 1, 256, 9, 0)};
+		}
+		else {
+			if (ord) {
+				ctors.push_back(K("init", 0, 1, 0, 2));
+				ctors.push_back(K("init", 0, 1, 0, 1));
+				ctors.push_back(S("new", 0, 0));
+			}
+			else
+				for (int t = 0; t <= 3; t++)
+					ctors.push_back(S("new", 0, t));
+			follow = {K("set", 0, 1, 7), K("idx", 0, 5, 7), K("idxr", 0, 1), K("cidx", 0, 1), K("get", 0, 1, 7), K("find", 0, 1), K("rm", 0, 1), S("rmnth", 0, 0), S("ownth", 0, 0, 7),
+			          S("clear", 0), S("clone", 0, 2), S("clone", 1, 0), S("dup", 0), S("copy", 0), S("add", 0, 1), S("add", 1, 0), S("add", 0, 0), S("keys", 0), S("eq", 0, 1), S("eq", 1, 0),
+			          S("eq", 0, 0), S("rebuild", 0, 2, 1, 0), S("cloneow", 0, 2, 7, 0), K("clonemove", 0, 5, 2, 0), K("setref", 0, 5, 0, 1), S("conv", 0, 0, 0, 0),
+			          S("many", 0, 1, set ? 256 : (part == "map_ii" || part == "hmap_ii" || part == "map_is") ? 256 : 0, 9, 3)};
+		}
+		for (auto& ct : ctors)
+			for (int other = 0; other < 2; other++)
+				for (auto& f : follow) {
+					if ((int)(idx++ % (uint64_t)a.workers) != a.worker)
+						continue;
+					vf::Case c;
+					if (other) { // slot 1 non-empty, overlapping the keys the constructors use
+						c.ops.push_back(K(set ? "add" : "set", 1, 1, 3));
+						c.ops.push_back(K(set ? "add" : "set", 1, 2, 4));
+					}
+					c.ops.push_back(ct);
+					c.ops.push_back(f);
+					c.ops.push_back(K(set ? "add" : "set", 0, 2, 9));
+					c.ops.push_back(K(set ? "has" : "find", 0, 1));
+					c.ops.push_back(S("eq", 0, 2));
+					if (!vf::runner().run(part, c))
+						return;
+					n++;
+				}
+	}
+	vf::stats().part("degenerate_constructions.every_ctor.every_followup_op", n, true);
+}
+
 } // namespace
 
 void vf_search(const vf::Args& a)
 {
+	[&]() { enumerate_degenerate(a); }();
 	[&]() { enumerate_small(a); }();
 	[&]() { enumerate_setref(a); }();
 	for (const char* kind : KINDS) {
